@@ -31,7 +31,6 @@ structure Frame (R : W → W → Prop) : Prop where
   opened : ∀ (w : W) (t : List Ans) (fd : Nat), R w { w with tape := t, s := { w.s with openFds := fd :: w.s.openFds } }
   tables : ∀ (w : W) (s' : KS), s'.byUser = w.s.byUser ∨ (∃ p, s'.byUser = w.s.byUser.filter (· != p)) → s'.closed = w.s.closed →
     R w { w with s := s' }
-  closing : ∀ (w : W), R w { w with s := { w.s with closed := true } }
 
 theorem Frame.toAdd {R : W → W → Prop} (F : Frame R) : FrameAdd R where
   refl := F.refl
@@ -369,14 +368,14 @@ theorem rel_remove (name : Path) (unwatch : Bool) : Rel R (remove name unwatch) 
   · exact Rel.pure f _
   · exact rel_rm F _ _ _
 
-theorem rel_close : Rel R close := by
+theorem rel_close (hcl : ∀ (w : W), R w { w with s := { w.s with closed := true } }) : Rel R close := by
   have f := F.toAdd
   unfold close
   refine Rel.bind f (rel_get f) ?_
   intro s0
   split
   · exact Rel.pure f _
-  · refine Rel.bind f (m := modify fun s => { s with closed := true }) (fun w => F.closing w) ?_
+  · refine Rel.bind f (m := modify fun s => { s with closed := true }) (fun w => hcl w) ?_
     intro _
     refine Rel.bind f (rel_forUntil f _ ?_ _) (fun _ => Rel.pure f _)
     intro p
@@ -519,7 +518,6 @@ theorem frame_silent : Frame Silent where
   tape := fun _ _ _ => ⟨rfl, rfl⟩
   opened := fun _ _ _ => ⟨rfl, rfl⟩
   tables := fun _ _ _ _ => ⟨rfl, rfl⟩
-  closing := fun _ => ⟨rfl, rfl⟩
 
 /-- no user path appears: the user-added set only shrinks -/
 def NoNewUser (a b : W) : Prop := ∀ p, p ∈ b.s.byUser → p ∈ a.s.byUser
@@ -536,7 +534,6 @@ theorem frame_noNewUser : Frame NoNewUser where
     · have : p ∈ s'.byUser := hp
       rw [hu] at this
       exact (List.mem_filter.mp this).1
-  closing := fun _ _ h => h
 
 theorem noNewUser_sendEvent (e : Ev) : Rel NoNewUser (sendEvent e) := by
   intro w p hp; unfold sendEvent at hp; split at hp <;> (try split at hp) <;> exact hp
